@@ -77,18 +77,29 @@ impl Window {
             },
         };
 
+        // Las jambas son siempre planos verticales (contienen la normal y el eje Y del opaco).
+        // Su polígono se define en profundidad (hacia el interior) y altura (eje Y del opaco)
+        // y se gira en su plano según la inclinación del opaco (sin giro en opacos verticales)
+        let (sin_t, cos_t) = if (wallgeom.tilt - 90.0).abs() < f32::EPSILON {
+            (1.0, 0.0)
+        } else {
+            wallgeom.tilt.to_radians().sin_cos()
+        };
+        let left_pt = |d: f32, h: f32| point![d * sin_t + h * cos_t, h * sin_t - d * cos_t];
+        let right_pt = |d: f32, h: f32| point![-d * sin_t - h * cos_t, h * sin_t - d * cos_t];
+
         let left_fin = Shade {
             id: uuid_from_str(&format!("{}-left_setback", self.id)),
             name: format!("{}_left_setback", self.name),
             geometry: WallGeom {
-                tilt: wallgeom.tilt,
+                tilt: 90.0,
                 azimuth: wallgeom.azimuth + 90.0,
                 position: Some(wall2world * point![wpos.x, wpos.y + wing.height, 0.0]),
                 polygon: vec![
-                    point![0.0, 0.0],
-                    point![0.0, -wing.height],
-                    point![wing.setback, -wing.height],
-                    point![wing.setback, 0.0],
+                    left_pt(0.0, 0.0),
+                    left_pt(0.0, -wing.height),
+                    left_pt(wing.setback, -wing.height),
+                    left_pt(wing.setback, 0.0),
                 ],
             },
         };
@@ -97,14 +108,14 @@ impl Window {
             id: uuid_from_str(&format!("{}-right_setback", self.id)),
             name: format!("{}_right_setback", self.name),
             geometry: WallGeom {
-                tilt: wallgeom.tilt,
+                tilt: 90.0,
                 azimuth: wallgeom.azimuth - 90.0,
                 position: Some(wall2world * point![wpos.x + wing.width, wpos.y + wing.height, 0.0]),
                 polygon: vec![
-                    point![0.0, 0.0],
-                    point![-wing.setback, 0.0],
-                    point![-wing.setback, -wing.height],
-                    point![0.0, -wing.height],
+                    right_pt(0.0, 0.0),
+                    right_pt(wing.setback, 0.0),
+                    right_pt(wing.setback, -wing.height),
+                    right_pt(0.0, -wing.height),
                 ],
             },
         };
